@@ -391,6 +391,9 @@ def directory_cases(tier):
         for sac in ((True, False), (True, True), (False, True)):
             if layout[0] == 'proc' or not sac[0]:
                 cases.append(dict(layout=layout, cuts=(1, 1, 1), ghost=2, reverse=False, single_as_chunk=sac))
+        # simulation names made of the words the readers look for in file names
+        for nm in ('run.file_3.x', 'it_4.rl=1 c=2', 'checkpoint.chkpt'):
+            cases.append(dict(layout=layout, cuts=(2, 1, 1), ghost=1, reverse=False, simname=nm))
         # a re-run from the same checkpoint that stopped early: restart ranges do not end in increasing order
         cases.append(dict(layout=layout, cuts=(2, 1, 1), ghost=1 + li % 2, reverse=False, nonmono=True))
     return cases
@@ -411,10 +414,11 @@ def run_directory_case(case, seed=0):
             restarts = [(0, [0, 2, 4, 6, 8], 0), (1, [4, 6, 8, 10, 12], 1), (2, [4, 6, 8], 2)]
             latest = {0: 0, 2: 0, 4: 2, 6: 2, 8: 2, 10: 1, 12: 1}
             requests = (([6, 12], ['alpha'], 0), ([4, 6, 10], ['betax', 'rho0'], 1), ([12, 0, 8, 2], ['betaup3'], 0), ([6], ['gxx'], 0))
-        truth = etgen.make_sim(root, 'sim', case['layout'], restarts=restarts, shape=(6, 5, 4), cuts=case['cuts'], ghost=case['ghost'],
+        sim = case.get('simname', 'sim')
+        truth = etgen.make_sim(root, sim, case['layout'], restarts=restarts, shape=(6, 5, 4), cuts=case['cuts'], ghost=case['ghost'],
                                rls=(0, 1), variables=('alp', 'betax', 'betay', 'betaz', 'gxx', 'gxy', 'gxz', 'gyy', 'gyz', 'gzz', 'rho'), chunk_order=order,
                                single_as_chunk=case.get('single_as_chunk', (False, False)))
-        p = etgen.param_for(root, 'sim')
+        p = etgen.param_for(root, sim)
         for its, vars_, rl in requests:
             d = aurel.read_data(p, it=list(its), vars=list(vars_), rl=rl, split_per_it=False, verbose=False, skip_last=False)
             if [int(i) for i in d['it']] != sorted(its):
@@ -507,7 +511,7 @@ def checkpoint_obligations(R):
 def native_dir_replay(o=None):
     bad = []
     cases = directory_cases('quick')
-    for case in [c for c in cases if c.get('nonmono') or c.get('single_as_chunk')] + cases[:8]:
+    for case in [c for c in cases if c.get('nonmono') or c.get('single_as_chunk') or c.get('simname')] + cases[:8]:
         bad += run_directory_case(case)
         if bad:
             break
